@@ -48,6 +48,7 @@ type c02Harness struct {
 	rec        *evi.Recorder
 	flakyCrash int
 	amplified  int
+	knownSlow  map[string]int
 	churn      int
 	maxChurn   uint64
 	maxChurnAt string
@@ -55,6 +56,21 @@ type c02Harness struct {
 	maxAmplificationAt string
 	slowFirst  int
 	remeasured int
+}
+
+// c02TimeKeyName: every entry that renders a diagnostic tree shares the
+// formatter (formatPretty / formatCompact / writeHexDump), which is where their
+// time goes; one key for that family.
+func c02TimeKeyName(e *c02Entry, v int) string {
+	switch e.Name {
+	case "cbor.ParseDiagnostic+Format", "cbor.Diagnose", "cbor.FormatCardanoDiagnostic":
+		return "cbor.diagnostic-formatting"
+	case "cbor.StreamDecoder":
+		if v == 5 || v == 6 {
+			return "cbor.diagnostic-formatting"
+		}
+	}
+	return c02KeyName(e, v)
 }
 
 func c02KeyName(e *c02Entry, v int) string {
@@ -70,7 +86,18 @@ func c02KeyName(e *c02Entry, v int) string {
 func (h *c02Harness) judge(ei, v int, data []byte) c02Verdict {
 	e := c02Entries[ei]
 	name := c02KeyName(e, v)
-	res := h.r.call(ei, v, data, c02FirstWait)
+	firstWait := c02FirstWait
+	timeKey := "time:" + c02TimeKeyName(e, v)
+	if h.rec.IsKnown(timeKey) {
+		// the slowness of this family is a listed finding: do not spend the long
+		// confirmation waits on it again, an overrun of the bound is attributed directly
+		firstWait = c02TimeBound + 2*time.Second
+	}
+	res := h.r.call(ei, v, data, firstWait)
+	if res.Status == -2 && h.rec.IsKnown(timeKey) {
+		h.knownSlow[timeKey]++
+		return c02Verdict{timeKey, fmt.Sprintf("%s did not finish within %s on a %d-byte input (listed finding, not re-measured)", e.VariantName(v), firstWait, len(data)), res}
+	}
 	switch res.Status {
 	case c02StatusOK, c02StatusErr:
 		if res.Alloc > c02Budget(len(data)) {
@@ -129,7 +156,7 @@ func (h *c02Harness) judge(ei, v int, data []byte) c02Verdict {
 			h.remeasured++
 			res2 := h.r.call(ei, v, data, c02RetryWait)
 			if res2.Status == -2 || res2.Elapsed > c02TimeBound {
-				return c02Verdict{"time:" + name, fmt.Sprintf("%s took %s and %s (re-measured) on a %d-byte input; bound %s", e.VariantName(v), res.Elapsed, res2.Elapsed, len(data), c02TimeBound), res2}
+				return c02Verdict{"time:" + c02TimeKeyName(e, v), fmt.Sprintf("%s took %s and %s (re-measured) on a %d-byte input; bound %s", e.VariantName(v), res.Elapsed, res2.Elapsed, len(data), c02TimeBound), res2}
 			}
 			h.slowFirst++
 		}
@@ -157,7 +184,7 @@ func (h *c02Harness) judge(ei, v int, data []byte) c02Verdict {
 		h.remeasured++
 		res2 := h.r.call(ei, v, data, c02RetryWait)
 		if res2.Status == -2 || (res2.Status >= 0 && res2.Elapsed > c02TimeBound) {
-			return c02Verdict{"time:" + name, fmt.Sprintf("%s did not finish within %s, and took %s when re-measured in a fresh worker (bound %s) on a %d-byte input", e.VariantName(v), c02FirstWait, res2.Elapsed, c02TimeBound, len(data)), res2}
+			return c02Verdict{"time:" + c02TimeKeyName(e, v), fmt.Sprintf("%s did not finish within %s, and took %s when re-measured in a fresh worker (bound %s) on a %d-byte input", e.VariantName(v), c02FirstWait, res2.Elapsed, c02TimeBound, len(data)), res2}
 		}
 		if res2.Status == -1 || res2.Status == c02StatusPanic {
 			return h.judgeRetry(ei, v, data, res2)
@@ -181,7 +208,7 @@ func (h *c02Harness) judgeRetry(ei, v int, data []byte, res c02Result) c02Verdic
 		sum, site := crashSummary(res.Msg)
 		return c02Verdict{"crash:" + name + ":" + sum, fmt.Sprintf("%s killed the worker: %s; first library frame %s", e.VariantName(v), sum, site), res}
 	default:
-		return c02Verdict{"time:" + name, fmt.Sprintf("%s did not finish within %s", e.VariantName(v), c02RetryWait), res}
+		return c02Verdict{"time:" + c02TimeKeyName(e, v), fmt.Sprintf("%s did not finish within %s", e.VariantName(v), c02RetryWait), res}
 	}
 }
 
@@ -334,7 +361,7 @@ func TestC02(t *testing.T) {
 	c02Init()
 	runner := &c02Runner{}
 	defer runner.Close()
-	h := &c02Harness{r: runner, rec: rec}
+	h := &c02Harness{r: runner, rec: rec, knownSlow: map[string]int{}}
 
 	// ---- the guard itself must work before anything hostile is trusted to it ----
 	if msg := c02SelfTest(h); msg != "" {
@@ -492,6 +519,13 @@ func TestC02(t *testing.T) {
 		in := genC02Input(rt, e, &v, uniformMax)
 		if len(in.Data) > c02MaxInput {
 			in.Data = in.Data[:c02MaxInput]
+		}
+		if tk := "time:" + c02TimeKeyName(e, v); h.knownSlow[tk] >= 2 && len(in.Data) > 4096 {
+			// listed slow family, already hit twice in this run: exclude the class
+			// (big inputs for these entries) by construction for the rest of the run
+			in.Data = in.Data[:4096]
+			in.Desc = append(in.Desc, "clipped to 4096 bytes (listed slow family)")
+			rec.Class("excluded_by_construction_listed_slow_family")
 		}
 		vd := h.judge(ei, v, in.Data)
 		record(ei, v, in, vd)
